@@ -166,8 +166,11 @@ fn check_classes(pattern: &str, regex_type: RegexType) -> Result<(), Box<dyn Err
                 members = members.strip_prefix(']').unwrap_or(members);
                 loop {
                     let Some(i) = members.find(['[', ']']) else {
-                        // (never closed: the engine has refused it already)
-                        return Ok(());
+                        // (the engine may have found an end for it: it takes the
+                        // "]" of a ".]" or "=]" for one)
+                        return Err(From::from(format!(
+                            "Unmatched [ in regular expression {pattern:?}"
+                        )));
                     };
                     if members.as_bytes()[i] == b']' {
                         rest = &members[i + 1..];
